@@ -8,6 +8,18 @@
 //   all <cmp> <seq>|<seq>|...                 every rank 0..N
 //   exh <cmp> <m> <minlen> <maxlen> <keys>    every tuple of exactly m sorted sequences with lengths in
 //                                             [minlen,maxlen] over keys 0..keys-1, every rank (one line per tuple)
+//   pad <x>                                   the padded length  round_up_to_power_of_two(x + 1) - 1  through every
+//                                             overload (int, unsigned, long, unsigned long, long long, unsigned long
+//                                             long) in whose range x + 1 and the result lie; x up to 2^62
+//   virt <cmp> <rank> <rle>|<rle>|...         VIRTUAL sequences (no memory): <rle> = key*count,key*count,... through a
+//                                             random-access iterator with difference_type long computing its value
+//                                             from the index; lengths beyond 2^32.  The answer is printed as usual and
+//                                             checked HERE against the specification predicate of partition_correct /
+//                                             check_select by O(m^2 + m log n) probing (" !SPEC:<why>" on failure); the
+//                                             check script compares it with its own evaluation of the specification.
+// Call modes a caller may use on HEAD are exercised on every rank: the same object passed as `rank` and `offset` of
+// multisequence_selection, and (pointer variants) offsets written in place into the `first` members of the pairs; a
+// deviating result replaces the answer and adds a token "#alias=...".
 // <cmp>: L = std::less<int>, G = std::greater<int>, Q = less on x/4 (a strict weak order with distinct
 // equivalent elements; the selected value is printed as x/4).  A <seq> is a comma separated list of ints,
 // sorted w.r.t. <cmp>.
@@ -26,12 +38,14 @@
 // (development aid only; the check uses the Coq model and the Coq checker).
 #include <algorithm>
 #include <cstdio>
+#include <cstdint>
 #include <cstdlib>
 #include <deque>
 #include <exception>
 #include <fstream>
 #include <functional>
 #include <iostream>
+#include <iterator>
 #include <sstream>
 #include <string>
 #include <utility>
@@ -112,6 +126,7 @@ struct Answer {
     bool thrown = false;
     int v = 0;
     long soff = -1;
+    std::string note;   // "#alias=..." when an aliasing call mode deviates
     bool operator==(const Answer& o) const {
         return offs == o.offs && thrown == o.thrown && (thrown || (v == o.v && soff == o.soff));
     }
@@ -145,6 +160,13 @@ static std::vector<std::pair<E*, E*>> ptr_pairs(std::vector<std::vector<E>>& cs)
     return r;
 }
 
+// writes the offsets in place into the `first` members of the iterator pairs
+template <typename It>
+struct FirstRef {
+    std::pair<It, It>* p;
+    It& operator[](std::ptrdiff_t i) const { return p[i].first; }
+};
+
 // RK: how the sequence of iterator pairs and the offsets are passed (0 iterators, 1 raw pointers, 2 const_iterator)
 template <typename RankT, int RK, typename ShowComp, typename It, typename Comp>
 static Answer run_one(std::vector<std::pair<It, It>> iters, long rank, Comp comp) {
@@ -155,18 +177,30 @@ static Answer run_one(std::vector<std::pair<It, It>> iters, long rank, Comp comp
     RankT soff = static_cast<RankT>(-1);
     Answer a;
     Elem v = Elem();
-    if constexpr (RK == 0) {
-        tlx::multisequence_partition(iters.begin(), iters.end(), rk, offs.begin(), comp);
-        try { v = tlx::multisequence_selection<Elem>(iters.begin(), iters.end(), rk, soff, comp); }
-        catch (std::exception&) { a.thrown = true; }
-    } else if constexpr (RK == 1) {
-        tlx::multisequence_partition(iters.data(), iters.data() + m, rk, offs.data(), comp);
-        try { v = tlx::multisequence_selection<Elem>(iters.data(), iters.data() + m, rk, soff, comp); }
-        catch (std::exception&) { a.thrown = true; }
-    } else {
-        tlx::multisequence_partition(iters.cbegin(), iters.cend(), rk, offs.begin(), comp);
-        try { v = tlx::multisequence_selection<Elem>(iters.cbegin(), iters.cend(), rk, soff, comp); }
-        catch (std::exception&) { a.thrown = true; }
+    auto select = [&](const RankT& r_in, RankT& off_out) -> Elem {
+        if constexpr (RK == 0) return tlx::multisequence_selection<Elem>(iters.begin(), iters.end(), r_in, off_out, comp);
+        else if constexpr (RK == 1) return tlx::multisequence_selection<Elem>(iters.data(), iters.data() + m, r_in, off_out, comp);
+        else return tlx::multisequence_selection<Elem>(iters.cbegin(), iters.cend(), r_in, off_out, comp);
+    };
+    if constexpr (RK == 0) tlx::multisequence_partition(iters.begin(), iters.end(), rk, offs.begin(), comp);
+    else if constexpr (RK == 1) tlx::multisequence_partition(iters.data(), iters.data() + m, rk, offs.data(), comp);
+    else tlx::multisequence_partition(iters.cbegin(), iters.cend(), rk, offs.begin(), comp);
+    try { v = select(rk, soff); } catch (std::exception&) { a.thrown = true; }
+    // call mode: one object is both `rank` (const RankType&) and `offset` (RankType&)
+    {
+        RankT pos = rk; Elem v2 = Elem(); bool thrown2 = false;
+        try { v2 = select(pos, pos); } catch (std::exception&) { thrown2 = true; }
+        if (thrown2 != a.thrown || (!thrown2 && (key_of(v2) != key_of(v) || pos != soff))) {
+            a.thrown = thrown2; v = v2; soff = pos; a.note += " #alias=selection(rank-is-offset)";
+        }
+    }
+    // call mode: the offsets overwrite the `first` members of the pairs
+    if constexpr (RK == 1) {
+        std::vector<std::pair<It, It>> inplace(iters);
+        tlx::multisequence_partition(inplace.data(), inplace.data() + m, rk, FirstRef<It>{inplace.data()}, comp);
+        bool same = true;
+        for (size_t i = 0; i < m; ++i) if (inplace[i].first != offs[i]) same = false;
+        if (!same) { for (size_t i = 0; i < m; ++i) offs[i] = inplace[i].first; a.note += " #alias=partition(offsets-in-place)"; }
     }
     for (size_t i = 0; i < m; ++i) a.offs.push_back(static_cast<long>(offs[i] - iters[i].first));
     a.v = show_val<ShowComp>(key_of(v));
@@ -229,6 +263,81 @@ extern template Answer run_part<3>(int, Tuple&, long);
 template Answer run_part<C08_PART>(int, Tuple&, long);
 #endif
 
+// ---------------------------------------------------------------------------------------------------------------
+// virtual sequences: value computed from the index, difference_type long, no memory
+struct VSeq {
+    std::vector<long> start;   // first index of every run
+    std::vector<int> keys;     // key of every run (storage the returned references point to; never written)
+    long n = 0;
+};
+inline long g_virt_oob = 0;
+struct VIt {
+    typedef std::random_access_iterator_tag iterator_category;
+    typedef int value_type;
+    typedef long difference_type;
+    typedef int* pointer;
+    typedef int& reference;
+    VSeq* s = nullptr;
+    long pos = 0;
+    int& operator[](long k) const {
+        long p = pos + k;
+        if (p < 0 || p >= s->n) { ++g_virt_oob; p = p < 0 ? 0 : s->n - 1; }   // an out-of-range read is reported
+        size_t seg = static_cast<size_t>(std::upper_bound(s->start.begin(), s->start.end(), p) - s->start.begin()) - 1;
+        return s->keys[seg];
+    }
+    int& operator*() const { return (*this)[0]; }
+    VIt& operator++() { ++pos; return *this; }
+    VIt operator++(int) { VIt t = *this; ++pos; return t; }
+    VIt& operator--() { --pos; return *this; }
+    VIt operator--(int) { VIt t = *this; --pos; return t; }
+    VIt& operator+=(long k) { pos += k; return *this; }
+    VIt& operator-=(long k) { pos -= k; return *this; }
+    friend VIt operator+(VIt a, long k) { a.pos += k; return a; }
+    friend VIt operator+(long k, VIt a) { a.pos += k; return a; }
+    friend VIt operator-(VIt a, long k) { a.pos -= k; return a; }
+    friend long operator-(const VIt& a, const VIt& b) { return a.pos - b.pos; }
+    friend bool operator==(const VIt& a, const VIt& b) { return a.pos == b.pos; }
+    friend bool operator!=(const VIt& a, const VIt& b) { return a.pos != b.pos; }
+    friend bool operator<(const VIt& a, const VIt& b) { return a.pos < b.pos; }
+    friend bool operator>(const VIt& a, const VIt& b) { return a.pos > b.pos; }
+    friend bool operator<=(const VIt& a, const VIt& b) { return a.pos <= b.pos; }
+    friend bool operator>=(const VIt& a, const VIt& b) { return a.pos >= b.pos; }
+};
+
+template <typename RankT, typename Comp>
+static Answer run_virtual_as(std::vector<VSeq>& vs, long rank, Comp comp) {
+    size_t m = vs.size();
+    std::vector<std::pair<VIt, VIt>> iters;
+    for (auto& q : vs) { VIt b; b.s = &q; b.pos = 0; VIt e = b; e.pos = q.n; iters.push_back(std::make_pair(b, e)); }
+    std::vector<VIt> offs(m);
+    RankT rk = static_cast<RankT>(rank);
+    RankT soff = static_cast<RankT>(-1);
+    Answer a;
+    int v = 0;
+    tlx::multisequence_partition(iters.begin(), iters.end(), rk, offs.begin(), comp);
+    try { v = tlx::multisequence_selection<int>(iters.begin(), iters.end(), rk, soff, comp); }
+    catch (std::exception&) { a.thrown = true; }
+    for (size_t i = 0; i < m; ++i) a.offs.push_back(offs[i] - iters[i].first);
+    a.v = v;
+    a.soff = static_cast<long>(soff);
+    return a;
+}
+// variants 0,1 live in part 2, variants 2,3 in part 3
+Answer run_virtual_a(int k, std::vector<VSeq>& vs, long rank);   // k = 0: less/long, 1: less/unsigned long
+Answer run_virtual_b(int k, std::vector<VSeq>& vs, long rank);   // k = 2: less/long long, 3: greater/long
+#if !defined(C08_PART) || C08_PART == 2
+Answer run_virtual_a(int k, std::vector<VSeq>& vs, long rank) {
+    if (k == 0) return run_virtual_as<long>(vs, rank, std::less<int>());
+    return run_virtual_as<unsigned long>(vs, rank, std::less<int>());
+}
+#endif
+#if !defined(C08_PART) || C08_PART == 3
+Answer run_virtual_b(int k, std::vector<VSeq>& vs, long rank) {
+    if (k == 2) return run_virtual_as<long long>(vs, rank, std::less<int>());
+    return run_virtual_as<long>(vs, rank, std::greater<int>());
+}
+#endif
+
 #if C08_MAIN
 template <typename Comp>
 static Answer run_variant(int k, Tuple& T, long rank, Comp) {
@@ -266,10 +375,11 @@ static void run_rank(std::vector<Seq>& seqs, Tuple& T, diff_t rank, std::string&
     ++g_entry;
     Answer a = run_variant(k0, T, rank, comp);
     show_answer(rank, a, out);
+    if (!a.note.empty()) { tags += a.note; tags += "("; tags += VARIANT_NAME[k0]; tags += ")"; }
     if (every_variant)
         for (int k = 1; k < NVARIANTS; ++k) {
             Answer b = run_variant(k, T, rank, comp);
-            if (!(b == a)) { show_answer(rank, b, out); tags += " #v="; tags += VARIANT_NAME[k]; }
+            if (!(b == a)) { show_answer(rank, b, out); tags += " #v="; tags += VARIANT_NAME[k]; tags += b.note; }
         }
     if (g_self) {
         std::vector<diff_t> want;
@@ -357,6 +467,92 @@ static void run_exh(const std::string& c, int m, int minlen, int maxlen, int key
     }
 }
 
+// the specification predicate of partition_correct / check_select on virtual sequences, by probing
+template <typename Comp>
+static std::string virt_spec(std::vector<VSeq>& vs, long rank, const Answer& a, Comp comp) {
+    size_t m = vs.size();
+    long N = 0, sum = 0;
+    for (auto& q : vs) N += q.n;
+    if (a.offs.size() != m) return "shape";
+    for (size_t i = 0; i < m; ++i) { if (a.offs[i] < 0 || a.offs[i] > vs[i].n) return "range"; sum += a.offs[i]; }
+    if (sum != rank) return "sum";
+    auto at = [&](size_t i, long p) { VIt b; b.s = &vs[i]; b.pos = 0; return b[p]; };
+    for (size_t i = 0; i < m; ++i)
+        for (size_t j = 0; j < m; ++j)
+            if (a.offs[i] > 0 && a.offs[j] < vs[j].n) {
+                int x = at(i, a.offs[i] - 1), y = at(j, a.offs[j]);
+                if (comp(y, x)) return "order";
+                if (!comp(x, y) && i > j) return "tie-rule";
+            }
+    if (rank >= N) return a.thrown ? "" : "no-throw";
+    if (a.thrown) return "throw";
+    long less = 0, leq = 0;
+    for (size_t i = 0; i < m; ++i) {
+        VIt b; b.s = &vs[i]; b.pos = 0; VIt e = b; e.pos = vs[i].n;
+        less += std::lower_bound(b, e, a.v, comp) - b;
+        leq += std::upper_bound(b, e, a.v, comp) - b;
+    }
+    if (!(less <= rank && rank < leq)) return "selected-value";
+    if (a.soff != rank - less) return "selection-offset";
+    return "";
+}
+
+static void run_virt(const std::string& c, long rank, const std::string& desc) {
+    std::vector<VSeq> vs;
+    size_t p = 0;
+    while (p <= desc.size()) {
+        size_t q = desc.find('|', p); if (q == std::string::npos) q = desc.size();
+        std::string one = desc.substr(p, q - p);
+        VSeq sq; size_t u = 0;
+        while (u < one.size()) {
+            size_t w = one.find(',', u); if (w == std::string::npos) w = one.size();
+            std::string run = one.substr(u, w - u);
+            size_t star = run.find('*');
+            sq.start.push_back(sq.n); sq.keys.push_back(atoi(run.substr(0, star).c_str()));
+            sq.n += atol(run.substr(star + 1).c_str());
+            u = w + 1;
+        }
+        vs.push_back(sq);
+        p = q + 1;
+    }
+    std::string out = "V" + c + " " + desc + " =>", tags;
+    g_virt_oob = 0;
+    bool greater = (c == "G");
+    Answer a = greater ? run_virtual_b(3, vs, rank) : run_virtual_a(0, vs, rank);
+    show_answer(rank, a, out);
+    if (!greater) {
+        static const char* const nm[3] = {"", "unsigned-long", "long-long"};
+        for (int k = 1; k <= 2; ++k) {
+            Answer b = k == 1 ? run_virtual_a(1, vs, rank) : run_virtual_b(2, vs, rank);
+            if (!(b == a)) { show_answer(rank, b, out); tags += " #v=virtual/"; tags += nm[k]; }
+        }
+    }
+    std::string why = greater ? virt_spec(vs, rank, a, std::greater<int>()) : virt_spec(vs, rank, a, std::less<int>());
+    if (!why.empty()) { out += " !SPEC:"; out += why; }
+    if (g_virt_oob) out += " !OUT-OF-RANGE-READ";
+    out += tags;
+    puts(out.c_str());
+}
+
+// padded length through every overload of round_up_to_power_of_two
+static void run_pad(long long x) {
+    char buf[64];
+    std::string out = "pad "; snprintf(buf, sizeof buf, "%lld", x); out += buf; out += " =>";
+    const long long one = 1;
+    auto put = [&](const char* name, bool applicable, unsigned long long val) {
+        out += " "; out += name; out += ":";
+        if (!applicable) { out += "-"; return; }
+        snprintf(buf, sizeof buf, "%llu", val); out += buf;
+    };
+    put("int", x + 1 <= (one << 30), x + 1 <= (one << 30) ? static_cast<unsigned long long>(tlx::round_up_to_power_of_two(static_cast<int>(x) + 1) - 1) : 0);
+    put("uint", x + 1 <= (one << 31), x + 1 <= (one << 31) ? static_cast<unsigned long long>(tlx::round_up_to_power_of_two(static_cast<unsigned int>(x) + 1u) - 1u) : 0);
+    put("long", x + 1 <= (one << 62), static_cast<unsigned long long>(tlx::round_up_to_power_of_two(static_cast<long>(x) + 1) - 1));
+    put("ulong", true, static_cast<unsigned long long>(tlx::round_up_to_power_of_two(static_cast<unsigned long>(x) + 1ul) - 1ul));
+    put("llong", x + 1 <= (one << 62), static_cast<unsigned long long>(tlx::round_up_to_power_of_two(static_cast<long long>(x) + 1) - 1));
+    put("ullong", true, static_cast<unsigned long long>(tlx::round_up_to_power_of_two(static_cast<unsigned long long>(x) + 1ull) - 1ull));
+    puts(out.c_str());
+}
+
 int main(int argc, char** argv) {
     if (argc < 2) { fprintf(stderr, "usage: %s casefile [-s]\n", argv[0]); return 2; }
     g_self = argc > 2 && std::string(argv[2]) == "-s";
@@ -377,6 +573,12 @@ int main(int argc, char** argv) {
         } else if (kind == "exh") {
             int m, lo, hi, keys; ls >> c >> m >> lo >> hi >> keys;
             run_exh(c, m, lo, hi, keys);
+        } else if (kind == "pad") {
+            long long x; ls >> x;
+            run_pad(x);
+        } else if (kind == "virt") {
+            long rank; std::string s; ls >> c >> rank >> s;
+            run_virt(c, rank, s);
         } else {
             puts("?");
         }
